@@ -216,12 +216,12 @@ def h_fuzzy(name, filler):
     return fn, types, st
 
 
-def h_gmt_sign(zone, sign):
+def h_gmt_sign(zone, sign, minutes=False):
     """'10:00 GMT+h' means h hours BEHIND UTC (my time + h is GMT); names that are not UTC aliases keep the sign rule too."""
     import dateutil.parser._parser as P
     from dateutil import tz
     K.prep()
-    pieces, fields, names = K.build(["2003-09-25 10:49:41 ", zone, sign, F("oh", 2)])
+    pieces, fields, names = K.build(["2003-09-25 10:49:41 ", zone, sign, F("oh", 2)] + ([":", F("om", 2)] if minutes else []))
     types = {nm: int for nm in names}
 
     def fn(ctx, **kw):
@@ -229,6 +229,8 @@ def h_gmt_sign(zone, sign):
             ctx.assume(S.within(kw[nm], 0, 9))
         oh = K.num(kw, fields["oh"])
         ctx.assume(S.within(oh, 0, 23))
+        om = K.num(kw, fields["om"]) if minutes else 0
+        ctx.assume(S.within(om, 0, 59))
         text = numtok.SymText(pieces, kw) if ctx.symbolic else numtok.SymText(pieces, kw).render()
         tzinfos = {"BRST": -7200} if zone == "BRST" else None
         env = contextlib.nullcontext() if ctx.symbolic else K.native_env()
@@ -237,7 +239,7 @@ def h_gmt_sign(zone, sign):
                 r = P.parser().parse(text, default=datetime.datetime(2001, 2, 3), tzinfos=tzinfos)
         except P.ParserError:
             ctx.fail("'%s%sh' rejected" % (zone, sign), key="gmt-sign-reject:%s%s" % (zone, sign))
-        exp = S.mulc(oh, 3600 * (-1 if sign == "+" else 1))
+        exp = S.mulc(S.add(S.mulc(oh, 3600), S.mulc(om, 60)), -1 if sign == "+" else 1)
         o = r.utcoffset()
         if zone == "BRST":
             ctx.check(o is not None and o == datetime.timedelta(seconds=-7200), "tzinfos name with a trailing offset: tzinfos must win", key="gmt-sign:BRST")
@@ -264,6 +266,12 @@ def cells(tier):
     for zone in ("GMT", "UTC", "BRST"):
         for sign in ("+", "-"):
             cs.append(Cell(M, "h_gmt_sign", dict(zone=zone, sign=sign), budget_s=120, per_path_s=30))
+    # numeric offsets as fixed-offset zones, text level (C02's offset templates) and GMT+hh:mm
+    for n in ("off-colon", "off-neg4", "off-hh", "off-utc-suffix"):
+        cs.append(Cell("harness.c02", "h_template", dict(name=n), name="offset-text[%s]" % n, budget_s=200, per_path_s=30, max_violations=20))
+    for zone in ("GMT", "UTC"):
+        for sign in ("+", "-"):
+            cs.append(Cell(M, "h_gmt_sign", dict(zone=zone, sign=sign, minutes=True), budget_s=120, per_path_s=30))
     tnames = ["iso-T", "us-slash-time", "month-name-February", "ampm", "compact8T6"] if q else \
         [n for n in c02.TEMPLATES if n.split("-")[-1] not in c02.MONTHS[1:] and not n.startswith("off-")]
     for n in tnames:
